@@ -45,11 +45,12 @@ theorem regNum_base (rb : BitVec 32) (hb : rb < 16#32) (B : Bool) (hB : B = rb.g
 /-- the memory check of the monitor on a parse whose ModRM / SIB / displacement are the parts of `[base64 + disp]` -/
 theorem memParts_checkMem (ctx : Spec.X86.Ctx) (rule : Rule) (p : Parsed) (opReg7 rb s : BitVec 32) (size : Nat) (d : BitVec 64)
     (hm64 : ctx.mode64 = true) (ho : opReg7 < 8#32) (hb : rb < 16#32) (hs6 : s ≤ 6#32)
-    (F : MemFields p (memHead opReg7 (rb &&& 7#32) (memVariant (rb &&& 7#32) (d.truncate 32) s)).1
+    (seg : Nat) (pfx : List (BitVec 8)) (h67 : pfx.contains 0x67#8 = false)
+    (F : MemFields p pfx (memHead opReg7 (rb &&& 7#32) (memVariant (rb &&& 7#32) (d.truncate 32) s)).1
            (memHead opReg7 (rb &&& 7#32) (memVariant (rb &&& 7#32) (d.truncate 32) s)).2
            (memDisp (d.truncate 32) s (memVariant (rb &&& 7#32) (d.truncate 32) s)) (rb.getLsbD 3) false)
     (hN : (if p.vexKind == 4 then disp8N rule p else 1) = 2 ^ s.toNat) :
-    checkMem ctx rule p (memOpBase size rb d) = .ok () := by
+    checkMem ctx rule p (memOpBase size rb d seg) = .ok () := by
   obtain ⟨hpm, hps, hpd, hpv, hpp, hpa, hpB, hpX⟩ := F
   have hr7 : rb &&& 7#32 < 8#32 := by bv_decide
   have hvlt := memVariant_lt (rb &&& 7#32) (d.truncate 32) s
@@ -69,7 +70,7 @@ theorem memParts_checkMem (ctx : Spec.X86.Ctx) (rule : Rule) (p : Parsed) (opReg
     intro h0 h5
     rw [fmod] at h0
     exact hv5 h0 (by apply BitVec.eq_of_toNat_eq; simpa using h5)
-  apply checkMem_base64 ctx rule p (memOpBase size rb d) hd.1 hm64 (by simp [hpp]) hpa hpm hmodne rfl rfl
+  apply checkMem_base64 ctx rule p (memOpBase size rb d seg) hd.1 hm64 (by rw [hpp]; exact h67) hpa hpm hmodne rfl rfl
   · obtain ⟨mb, sb⟩ := hd
     cases sb with
     | none =>
@@ -89,7 +90,7 @@ theorem memParts_checkMem (ctx : Spec.X86.Ctx) (rule : Rule) (p : Parsed) (opReg
         rw [fb1]; exact hbaseNum
       · rw [hpX, fb2]; rfl
   · simp only [decodedDisp, hpd, hpv]
-    have : (memOpBase size rb d).disp.toNat % 2 ^ 32 = (d.truncate 32 : BitVec 32).toNat := by simp [memOpBase, BitVec.toNat_setWidth]
+    have : (memOpBase size rb d seg).disp.toNat % 2 ^ 32 = (d.truncate 32 : BitVec 32).toNat := by simp [memOpBase, BitVec.toNat_setWidth]
     rw [this, hN]
     exact hmd
 
@@ -112,11 +113,11 @@ theorem evexWord_forced (x opcode : BitVec 32) : evexWord (x ||| 0x80000000#32) 
 
 /-- `EmitVexEvexM` on `[base64 + disp]`: the complete output in its branches. EVEX is chosen when the instruction has no VEX form
 (`vexFlag = false`, the "forced EVEX" bit 31 of `x`) or when a register / the opcode word needs it. -/
-theorem emitVexEvexM_base_bytes (c : Model.X86.Ctx) (opcode reg vvvvv rb : BitVec 32) (size : Nat) (d imm : BitVec 64) (n : Nat)
+theorem emitVexEvexM_base_bytes (c : Model.X86.Ctx) (opcode reg vvvvv rb : BitVec 32) (size : Nat) (d imm : BitVec 64) (n : Nat) (seg : Nat)
     (hm : c.mode64 = true) (hpe : c.preferEvex = false) (hk : c.extraId = 0#32) (hvs : c.vsib = false) (hts : c.tsib = false)
     (hr : reg < 32#32) (hv : vvvvv < 32#32) (hb : rb < 16#32) (hxop : opcode &&& 0x800#32 = 0#32) :
-    emitVexEvexM c opcode 0#32 (reg + (vvvvv <<< 7)) (memBase size rb d) imm n =
-      .ok ((if c.vexFlag = false ∨ xR opcode 0#32 reg vvvvv rb 0#32 &&& 0x00D78150#32 ≠ 0#32 then
+    emitVexEvexM c opcode 0#32 (reg + (vvvvv <<< 7)) (memBase size rb d seg) imm n =
+      .ok (segmentPrefix seg ++ ((if c.vexFlag = false ∨ xR opcode 0#32 reg vvvvv rb 0#32 &&& 0x00D78150#32 ≠ 0#32 then
               le32 (evexWord (xR opcode 0#32 reg vvvvv rb 0#32) opcode) ++ [opcode.truncate 8] ++
                 (memMb ((reg + (vvvvv <<< 7)) &&& 7#32) rb (d.truncate 32) (cdShiftOf (evexCdOpcodeOf opcode)) ::
                   ((memSib ((reg + (vvvvv <<< 7)) &&& 7#32) rb (d.truncate 32) (cdShiftOf (evexCdOpcodeOf opcode))).toList ++
@@ -129,16 +130,16 @@ theorem emitVexEvexM_base_bytes (c : Model.X86.Ctx) (opcode reg vvvvv rb : BitVe
               [0xC5#8, (vex2Byte (vexPrep (xR opcode 0#32 reg vvvvv rb 0#32) opcode 0#32)).truncate 8, opcode.truncate 8] ++
                 (memMb ((reg + (vvvvv <<< 7)) &&& 7#32) rb (d.truncate 32) 0#32 ::
                   ((memSib ((reg + (vvvvv <<< 7)) &&& 7#32) rb (d.truncate 32) 0#32).toList ++ memDs rb (d.truncate 32) 0#32))) ++
-           emitImmediate imm n) := by
+           emitImmediate imm n)) := by
   have hx31 : xMb opcode reg vvvvv rb &&& 0x80000000#32 = 0#32 := by simp only [xMb, extractLLMMMMM, kLL_Mask, kMM_Mask, oEvex]; bv_decide
   have h3 : (vexPrep (xR opcode 0#32 reg vvvvv rb 0#32) opcode 0#32 &&& 0x8000807E#32 ≠ 0#32) ↔
       (vexPrep (xR opcode 0#32 reg vvvvv rb 0#32) opcode 0#32 &&& 0x8000803E#32 ≠ 0#32) := by
     simp only [vexPrep, xR, extractLLMMMMM, kLL_Mask, kMM_Mask, oEvex, oVex3]
     constructor <;> intro h <;> bv_decide
-  have hoff : (memBase size rb d).offLo32 = d.truncate 32 := rfl
+  have hoff : (memBase size rb d seg).offLo32 = d.truncate 32 := rfl
   have hcd := evexCdOpcode_eq opcode reg vvvvv rb hr hv hb hxop
   simp only [evexCdOpcode] at hcd
-  rw [emitVexEvexM_base_eq c opcode reg vvvvv rb size d imm n hm hpe hk hvs]
+  rw [emitVexEvexM_base_eq c opcode reg vvvvv rb size d imm n seg hm hpe hk hvs]
   cases hvf : c.vexFlag
   · -- forced EVEX
     have hx20 : (xMb opcode reg vvvvv rb ||| 0x80000000#32) &&& 0x00180040#32 = 0#32 := by
@@ -147,7 +148,7 @@ theorem emitVexEvexM_base_bytes (c : Model.X86.Ctx) (opcode reg vvvvv rb : BitVe
     simp only [Bool.false_eq_true, ↓reduceIte, true_or]
     rw [vexEvexMPrefix_nobcst c _ opcode _ hx20, if_pos hne, evexWord_forced, xMb_eq_xR opcode reg vvvvv rb hb]
     simp only []
-    rw [emitModSib_base_parts c _ 0 _ 0#32 _ rb 0#32 0x0D#32 (memBase size rb d) imm n hts (by decide) (by decide), hoff, hcd]
+    rw [emitModSib_base_parts c _ _ _ 0#32 _ rb 0#32 0x0D#32 (memBase size rb d seg) imm n hts (by decide) (by decide), hoff, hcd]
     simp [memMb, memSib, memDs]
   · have hx20 : xMb opcode reg vvvvv rb &&& 0x00180040#32 = 0#32 := by simp only [xMb, extractLLMMMMM, kLL_Mask, kMM_Mask, oEvex]; bv_decide
     have hc : (xMb opcode reg vvvvv rb &&& 0x80D78150#32 ≠ 0#32) ↔ (xMb opcode reg vvvvv rb &&& 0x00D78150#32 ≠ 0#32) := by
@@ -159,40 +160,41 @@ theorem emitVexEvexM_base_bytes (c : Model.X86.Ctx) (opcode reg vvvvv rb : BitVe
       rw [xMb_eq_xR opcode reg vvvvv rb hb] at hev ⊢
       rw [if_pos hev]
       simp only []
-      rw [emitModSib_base_parts c _ 0 _ 0#32 _ rb 0#32 0x0D#32 (memBase size rb d) imm n hts (by decide) (by decide), hoff, hcd]
+      rw [emitModSib_base_parts c _ _ _ 0#32 _ rb 0#32 0x0D#32 (memBase size rb d seg) imm n hts (by decide) (by decide), hoff, hcd]
       simp [memMb, memSib, memDs]
     · rw [if_neg (fun h => hev (hc.mp h))]
       rw [xMb_eq_xR opcode reg vvvvv rb hb] at hev ⊢
       rw [if_neg hev]
       by_cases hv3 : vexPrep (xR opcode 0#32 reg vvvvv rb 0#32) opcode 0#32 &&& 0x8000803E#32 ≠ 0#32
       · simp only [if_pos hv3, if_pos (h3.mpr hv3)]
-        rw [emitModSib_base_parts c _ 0 _ 0#32 _ rb 0#32 0x0D#32 (memBase size rb d) imm n hts (by decide) (by decide), hoff, cdShift_cleared,
+        rw [emitModSib_base_parts c _ _ _ 0#32 _ rb 0#32 0x0D#32 (memBase size rb d seg) imm n hts (by decide) (by decide), hoff, cdShift_cleared,
           vex3Word_masked]
         simp [memMb, memSib, memDs]
       · have hv3' : ¬ (vexPrep (xR opcode 0#32 reg vvvvv rb 0#32) opcode 0#32 &&& 0x8000807E#32 ≠ 0#32) := fun h => hv3 (h3.mp h)
         simp only [if_neg hv3, if_neg hv3']
-        rw [emitModSib_base_parts c _ 0 _ 0#32 _ rb 0#32 0x0D#32 (memBase size rb d) imm n hts (by decide) (by decide), hoff, cdShift_cleared]
+        rw [emitModSib_base_parts c _ _ _ 0#32 _ rb 0#32 0x0D#32 (memBase size rb d seg) imm n hts (by decide) (by decide), hoff, cdShift_cleared]
         simp [memMb, memSib, memDs]
 
 
 /-! ### address forms -/
 
-/-- What an address form provides: `m` / `mo` are the model / spec operand, `xb` packs the extension bits (bit 3 = B, bit 4 = X) the prefix carries,
+/-- What an address form provides: `m` / `mo` are the model / spec operand, `pfx` the legacy
+prefix bytes (segment override / 67) written before the VEX / EVEX prefix, `xb` packs the extension bits (bit 3 = B, bit 4 = X) the prefix carries,
 `mb o7 s` / `sib o7 s` / `ds o7 s` are the ModRM / SIB / displacement bytes for ModRM.reg = `o7` and compressed-displacement shift `s`. -/
-structure AddrForm (c : Model.X86.Ctx) (ctx : Spec.X86.Ctx) (m : Mem) (mo : MemOp) (xb : BitVec 32)
+structure AddrForm (c : Model.X86.Ctx) (ctx : Spec.X86.Ctx) (m : Mem) (mo : MemOp) (pfx : List (BitVec 8)) (xb : BitVec 32)
     (mb : BitVec 32 → BitVec 32 → BitVec 8) (sib : BitVec 32 → BitVec 32 → Option (BitVec 8)) (ds : BitVec 32 → BitVec 32 → List (BitVec 8)) : Prop where
   hxb : xb < 32#32
-  hwa : wantedAddrSize true mo = 64
+  hpl : PfxList false pfx
+  hpc : PfxCounts pfx mo
   hvsib : vsibOf mo = .none
-  hseg : mo.seg = 0
   hbc : mo.bcst = 0
   shape : ∀ o7 s, o7 < 8#32 → (bits (mb o7 s) 6 2 ≠ 3 ∧ (bits (mb o7 s) 0 3 == 4) = (sib o7 s).isSome ∧
             (ds o7 s).length = dispLen (mb o7 s) (sib o7 s) ∧ bits (mb o7 s) 3 3 = o7.toNat)
-  chk : ∀ (rule : Rule) (p : Parsed) o7 s, o7 < 8#32 → s ≤ 6#32 → MemFields p (mb o7 s) (sib o7 s) (ds o7 s) (xb.getLsbD 3) (xb.getLsbD 4) →
+  chk : ∀ (rule : Rule) (p : Parsed) o7 s, o7 < 8#32 → s ≤ 6#32 → MemFields p pfx (mb o7 s) (sib o7 s) (ds o7 s) (xb.getLsbD 3) (xb.getLsbD 4) →
             (if p.vexKind == 4 then disp8N rule p else 1) = 2 ^ s.toNat → checkMem ctx rule p mo = .ok ()
   emit : ∀ (opcode reg vvvvv : BitVec 32) (imm : BitVec 64) (n : Nat), reg < 32#32 → vvvvv < 32#32 → opcode &&& 0x800#32 = 0#32 →
     emitVexEvexM c opcode 0#32 (reg + (vvvvv <<< 7)) m imm n =
-      .ok ((if c.vexFlag = false ∨ xR opcode 0#32 reg vvvvv xb 0#32 &&& 0x00D78110#32 ≠ 0#32 then
+      .ok (pfx ++ ((if c.vexFlag = false ∨ xR opcode 0#32 reg vvvvv xb 0#32 &&& 0x00D78110#32 ≠ 0#32 then
               le32 (evexWord (xR opcode 0#32 reg vvvvv xb 0#32) opcode) ++ [opcode.truncate 8] ++
                 (mb ((reg + (vvvvv <<< 7)) &&& 7#32) (cdShiftOf (evexCdOpcodeOf opcode)) ::
                   ((sib ((reg + (vvvvv <<< 7)) &&& 7#32) (cdShiftOf (evexCdOpcodeOf opcode))).toList ++
@@ -205,21 +207,40 @@ structure AddrForm (c : Model.X86.Ctx) (ctx : Spec.X86.Ctx) (m : Mem) (mo : MemO
               [0xC5#8, (vex2Byte (vexPrep (xR opcode 0#32 reg vvvvv xb 0#32) opcode 0#32)).truncate 8, opcode.truncate 8] ++
                 (mb ((reg + (vvvvv <<< 7)) &&& 7#32) 0#32 ::
                   ((sib ((reg + (vvvvv <<< 7)) &&& 7#32) 0#32).toList ++ ds ((reg + (vvvvv <<< 7)) &&& 7#32) 0#32))) ++
-           emitImmediate imm n)
+           emitImmediate imm n))
 
-/-- the address form `[base64 + disp]` -/
-theorem addrForm_base (c : Model.X86.Ctx) (ctx : Spec.X86.Ctx) (rb : BitVec 32) (size : Nat) (d : BitVec 64)
+/-- the segment-override bytes the encoder writes are a legal prefix list and exactly the ones the monitor wants for a 64-bit-addressed operand -/
+theorem segPfx_ok (seg : Nat) (mo : MemOp) (hseg : mo.seg = seg) (hwa : wantedAddrSize true mo = 64) :
+    PfxList false (segmentPrefix seg) ∧ PfxCounts (segmentPrefix seg) mo ∧ (segmentPrefix seg).contains 0x67#8 = false := by
+  have hc : seg = 0 ∨ seg = 1 ∨ seg = 2 ∨ seg = 3 ∨ seg = 4 ∨ seg = 5 ∨ seg = 6 ∨ 7 ≤ seg := by omega
+  have key : ∀ s : Nat, (s = 0 ∨ s = 1 ∨ s = 2 ∨ s = 3 ∨ s = 4 ∨ s = 5 ∨ s = 6 ∨ 7 ≤ s) →
+      PfxList false (segmentPrefix s) ∧ (segmentPrefix s).count 0x66#8 = 0 ∧ (segmentPrefix s).count 0xF3#8 = 0 ∧ (segmentPrefix s).count 0xF2#8 = 0 ∧
+      (segmentPrefix s).count 0xF0#8 = 0 ∧ (segmentPrefix s).count 0x9B#8 = 0 ∧
+      (segmentPrefix s).filter isSegByte = (match segPrefix s with | some b => [b] | Option.none => []) ∧
+      (segmentPrefix s).count 0x67#8 ≤ 1 ∧ (segmentPrefix s).contains 0x67#8 = false := by
+    intro s hs
+    rcases hs with h | h | h | h | h | h | h | h
+    iterate 7 (subst h; refine ⟨?_, by decide⟩; first | exact Or.inl rfl | exact Or.inr (Or.inl ⟨_, rfl, by decide⟩))
+    obtain ⟨k, rfl⟩ : ∃ k, s = k + 7 := ⟨s - 7, by omega⟩
+    refine ⟨Or.inl rfl, ?_⟩
+    simp [segmentPrefix, segPrefix]
+  obtain ⟨a, c66, cF3, cF2, cF0, c9B, cseg, c67, cc⟩ := key seg hc
+  exact ⟨a, ⟨c66, cF3, cF2, cF0, c9B, by rw [hseg]; exact cseg, c67, by rw [cc, hwa]; rfl⟩, cc⟩
+
+/-- the address form `seg:[base64 + disp]`: ALL base registers 0..15, ALL displacements, ANY segment override -/
+theorem addrForm_base (c : Model.X86.Ctx) (ctx : Spec.X86.Ctx) (rb : BitVec 32) (size : Nat) (d : BitVec 64) (seg : Nat)
     (hm : c.mode64 = true) (hpe : c.preferEvex = false) (hk : c.extraId = 0#32) (hvs : c.vsib = false) (hts : c.tsib = false)
     (hm64 : ctx.mode64 = true) (hb : rb < 16#32) :
-    AddrForm c ctx (memBase size rb d) (memOpBase size rb d) rb
+    AddrForm c ctx (memBase size rb d seg) (memOpBase size rb d seg) (segmentPrefix seg) rb
       (fun o7 s => memMb o7 rb (d.truncate 32) s) (fun o7 s => memSib o7 rb (d.truncate 32) s) (fun _ s => memDs rb (d.truncate 32) s) := by
-  refine ⟨by bv_decide, rfl, rfl, rfl, rfl, ?_, ?_, ?_⟩
+  obtain ⟨hpl, hpc, h67⟩ := segPfx_ok seg (memOpBase size rb d seg) rfl rfl
+  refine ⟨by bv_decide, hpl, hpc, rfl, rfl, ?_, ?_, ?_⟩
   · intro o7 s ho
     exact memParts_shape o7 rb (d.truncate 32) s ho
   · intro rule p o7 s ho hs6 F hN
     have hx4 : rb.getLsbD 4 = false := by bv_decide
     rw [hx4] at F
-    exact memParts_checkMem ctx rule p o7 rb s size d hm64 ho hb hs6 F hN
+    exact memParts_checkMem ctx rule p o7 rb s size d hm64 ho hb hs6 seg _ h67 F hN
   · intro opcode reg vvvvv imm n hr hv hxop
     have hc1 : (xR opcode 0#32 reg vvvvv rb 0#32 &&& 0x00D78110#32 ≠ 0#32) ↔ (xR opcode 0#32 reg vvvvv rb 0#32 &&& 0x00D78150#32 ≠ 0#32) := by
       simp only [xR, extractLLMMMMM, kLL_Mask, kMM_Mask, oEvex]
@@ -228,16 +249,16 @@ theorem addrForm_base (c : Model.X86.Ctx) (ctx : Spec.X86.Ctx) (rb : BitVec 32) 
         (vexPrep (xR opcode 0#32 reg vvvvv rb 0#32) opcode 0#32 &&& 0x8000803E#32 ≠ 0#32) := by
       simp only [vexPrep, xR, extractLLMMMMM, kLL_Mask, kMM_Mask, oEvex, oVex3]
       constructor <;> intro h <;> bv_decide
-    rw [emitVexEvexM_base_bytes c opcode reg vvvvv rb size d imm n hm hpe hk hvs hts hr hv hb hxop]
+    rw [emitVexEvexM_base_bytes c opcode reg vvvvv rb size d imm n seg hm hpe hk hvs hts hr hv hb hxop]
     simp only [hc1, hc3]
 
 /-! ### compositions: shape × prefix kind, generic in the address form -/
 
 /-- shape [reg, vvvv, MEM], EVEX rule: the bytes of `EmitVexEvexM` when the EVEX branch is taken (the instruction has no
 VEX form, or a register / the opcode word needs EVEX) satisfy the monitor -/
-theorem vexM_rvm_formOk_evex (c : Model.X86.Ctx) (ctx : Spec.X86.Ctx) (rule : Rule) (opcode reg vvvvv xb : BitVec 32) (m : Mem) (mo : MemOp)
+theorem vexM_rvm_formOk_evex (c : Model.X86.Ctx) (ctx : Spec.X86.Ctx) (rule : Rule) (opcode reg vvvvv xb : BitVec 32) (m : Mem) (mo : MemOp) (pfx : List (BitVec 8))
     (mb : BitVec 32 → BitVec 32 → BitVec 8) (sib : BitVec 32 → BitVec 32 → Option (BitVec 8)) (ds : BitVec 32 → BitVec 32 → List (BitVec 8))
-    (AF : AddrForm c ctx m mo xb mb sib ds)
+    (AF : AddrForm c ctx m mo pfx xb mb sib ds)
     (k0 k1 : RegKind) (f0 f1 f2 : FormOp)
     (hm64 : ctx.mode64 = true) (hmode : (rule.modes &&& 2 != 0) = true)
     (hr : reg < 32#32) (hv : vvvvv < 32#32) (hxop : opcode &&& 0x800#32 = 0#32)
@@ -256,15 +277,15 @@ theorem vexM_rvm_formOk_evex (c : Model.X86.Ctx) (ctx : Spec.X86.Ctx) (rule : Ru
   refine ⟨_, rfl, ?_⟩
   have ho7 : (reg + (vvvvv <<< 7)) &&& 7#32 < 8#32 := by bv_decide
   obtain ⟨s1, s2, s3, s4⟩ := AF.shape _ (cdShiftOf (evexCdOpcodeOf opcode)) ho7
-  obtain ⟨p, hp, P, h0, h1, F, hNp, hi⟩ := evexG_parsed rule opcode reg vvvvv xb _ _ _ [] hr hv AF.hxb hxop R hs A s1 s2 s3 s4
+  obtain ⟨p, hp, P, h0, h1, F, hNp, hi⟩ := evexG_parsed rule opcode reg vvvvv xb pfx _ _ _ [] AF.hpl hr hv AF.hxb hxop R hs A s1 s2 s3 s4
   have hc := AF.chk rule p _ _ ho7 hs6 F (by rw [hNp]; exact hN)
   simp only [emitImmediate] at *
-  exact vex_rvm_mem_formOk ctx rule p _ _ k0 k1 f0 f1 f2 _ _ _ hm64 hmode hk0 hk1 R hf0 hf1 hf2 AF.hwa AF.hvsib AF.hseg AF.hbc hal hp P h0 h1 hc
+  exact vex_rvm_mem_formOk ctx rule p _ _ pfx k0 k1 f0 f1 f2 _ _ _ hm64 hmode hk0 hk1 R hf0 hf1 hf2 AF.hpc AF.hvsib AF.hbc hal hp P h0 h1 hc
 
 /-- shape [reg, vvvv, MEM], VEX rule: the VEX3 or VEX2 bytes `EmitVexEvexM` emits when EVEX is not needed satisfy the monitor -/
-theorem vexM_rvm_formOk_vex (c : Model.X86.Ctx) (ctx : Spec.X86.Ctx) (rule : Rule) (opcode reg vvvvv xb : BitVec 32) (m : Mem) (mo : MemOp)
+theorem vexM_rvm_formOk_vex (c : Model.X86.Ctx) (ctx : Spec.X86.Ctx) (rule : Rule) (opcode reg vvvvv xb : BitVec 32) (m : Mem) (mo : MemOp) (pfx : List (BitVec 8))
     (mb : BitVec 32 → BitVec 32 → BitVec 8) (sib : BitVec 32 → BitVec 32 → Option (BitVec 8)) (ds : BitVec 32 → BitVec 32 → List (BitVec 8))
-    (AF : AddrForm c ctx m mo xb mb sib ds)
+    (AF : AddrForm c ctx m mo pfx xb mb sib ds)
     (k0 k1 : RegKind) (f0 f1 f2 : FormOp)
     (hvf : c.vexFlag = true)
     (hm64 : ctx.mode64 = true) (hmode : (rule.modes &&& 2 != 0) = true)
@@ -291,26 +312,26 @@ theorem vexM_rvm_formOk_vex (c : Model.X86.Ctx) (ctx : Spec.X86.Ctx) (rule : Rul
   by_cases h3 : vexPrep (xR opcode 0#32 reg vvvvv xb 0#32) opcode 0#32 &&& 0x8000807E#32 ≠ 0#32
   · rw [if_pos h3]
     refine ⟨_, rfl, ?_⟩
-    obtain ⟨p, hp, P, h0, h1, F, hNp, hi⟩ := vex3G_parsed rule opcode reg vvvvv xb _ _ _ [] hr hv hxb hxop hll R hs A s1 s2 s3 s4
+    obtain ⟨p, hp, P, h0, h1, F, hNp, hi⟩ := vex3G_parsed rule opcode reg vvvvv xb pfx _ _ _ [] AF.hpl hr hv hxb hxop hll R hs A s1 s2 s3 s4
     have hc := AF.chk rule p _ _ ho7 (by decide) F (by rw [hNp]; rfl)
     simp only [emitImmediate] at *
-    exact vex_rvm_mem_formOk ctx rule p _ _ k0 k1 f0 f1 f2 _ _ _ hm64 hmode hk0 hk1 R hf0 hf1 hf2 AF.hwa AF.hvsib AF.hseg AF.hbc hal hp P h0 h1 hc
+    exact vex_rvm_mem_formOk ctx rule p _ _ pfx k0 k1 f0 f1 f2 _ _ _ hm64 hmode hk0 hk1 R hf0 hf1 hf2 AF.hpc AF.hvsib AF.hbc hal hp P h0 h1 hc
   · rw [if_neg h3]
     refine ⟨_, rfl, ?_⟩
     have h3' : vexPrep (xR opcode 0#32 reg vvvvv xb 0#32) opcode 0#32 &&& 0x8000807E#32 = 0#32 := by simpa using h3
     have hmm1 : opcode &&& 0x100#32 ≠ 0#32 := by
       simp only [vexPrep, xR, extractLLMMMMM, kLL_Mask, kMM_Mask, oEvex, oVex3] at h3'
       bv_decide
-    obtain ⟨p, hp, P, h0, h1, F, hNp, hi⟩ := vex2G_parsed rule opcode reg vvvvv xb _ _ _ [] hr hv hxb hll hmm1 h3' R hs A s1 s2 s3 s4
+    obtain ⟨p, hp, P, h0, h1, F, hNp, hi⟩ := vex2G_parsed rule opcode reg vvvvv xb pfx _ _ _ [] AF.hpl hr hv hxb hll hmm1 h3' R hs A s1 s2 s3 s4
     have hc := AF.chk rule p _ _ ho7 (by decide) F (by rw [hNp]; rfl)
     simp only [emitImmediate] at *
-    exact vex_rvm_mem_formOk ctx rule p _ _ k0 k1 f0 f1 f2 _ _ _ hm64 hmode hk0 hk1 R hf0 hf1 hf2 AF.hwa AF.hvsib AF.hseg AF.hbc hal hp P h0 h1 hc
+    exact vex_rvm_mem_formOk ctx rule p _ _ pfx k0 k1 f0 f1 f2 _ _ _ hm64 hmode hk0 hk1 R hf0 hf1 hf2 AF.hpc AF.hvsib AF.hbc hal hp P h0 h1 hc
 
 /-- shape [reg, MEM], EVEX rule: the bytes of `EmitVexEvexM` when the EVEX branch is taken (the instruction has no
 VEX form, or a register / the opcode word needs EVEX) satisfy the monitor -/
-theorem vexM_rm_formOk_evex (c : Model.X86.Ctx) (ctx : Spec.X86.Ctx) (rule : Rule) (opcode reg xb : BitVec 32) (m : Mem) (mo : MemOp)
+theorem vexM_rm_formOk_evex (c : Model.X86.Ctx) (ctx : Spec.X86.Ctx) (rule : Rule) (opcode reg xb : BitVec 32) (m : Mem) (mo : MemOp) (pfx : List (BitVec 8))
     (mb : BitVec 32 → BitVec 32 → BitVec 8) (sib : BitVec 32 → BitVec 32 → Option (BitVec 8)) (ds : BitVec 32 → BitVec 32 → List (BitVec 8))
-    (AF : AddrForm c ctx m mo xb mb sib ds)
+    (AF : AddrForm c ctx m mo pfx xb mb sib ds)
     (k0 : RegKind) (f0 f2 : FormOp)
     (hm64 : ctx.mode64 = true) (hmode : (rule.modes &&& 2 != 0) = true)
     (hr : reg < 32#32) (hxop : opcode &&& 0x800#32 = 0#32)
@@ -329,15 +350,15 @@ theorem vexM_rm_formOk_evex (c : Model.X86.Ctx) (ctx : Spec.X86.Ctx) (rule : Rul
   refine ⟨_, rfl, ?_⟩
   have ho7 : (reg + (0#32 <<< 7)) &&& 7#32 < 8#32 := by bv_decide
   obtain ⟨s1, s2, s3, s4⟩ := AF.shape _ (cdShiftOf (evexCdOpcodeOf opcode)) ho7
-  obtain ⟨p, hp, P, h0, h1, F, hNp, hi⟩ := evexG_parsed rule opcode reg 0#32 xb _ _ _ [] hr (by decide) AF.hxb hxop R hs A s1 s2 s3 s4
+  obtain ⟨p, hp, P, h0, h1, F, hNp, hi⟩ := evexG_parsed rule opcode reg 0#32 xb pfx _ _ _ [] AF.hpl hr (by decide) AF.hxb hxop R hs A s1 s2 s3 s4
   have hc := AF.chk rule p _ _ ho7 hs6 F (by rw [hNp]; exact hN)
   simp only [emitImmediate] at *
-  exact vex_rm_mem_formOk ctx rule p _ _ k0 f0 f2 _ _ hm64 hmode hk0 R hf0 hf2 AF.hwa AF.hvsib AF.hseg AF.hbc hal hp P h0 h1 hc
+  exact vex_rm_mem_formOk ctx rule p _ _ pfx k0 f0 f2 _ _ hm64 hmode hk0 R hf0 hf2 AF.hpc AF.hvsib AF.hbc hal hp P h0 h1 hc
 
 /-- shape [reg, MEM], VEX rule: the VEX3 or VEX2 bytes `EmitVexEvexM` emits when EVEX is not needed satisfy the monitor -/
-theorem vexM_rm_formOk_vex (c : Model.X86.Ctx) (ctx : Spec.X86.Ctx) (rule : Rule) (opcode reg xb : BitVec 32) (m : Mem) (mo : MemOp)
+theorem vexM_rm_formOk_vex (c : Model.X86.Ctx) (ctx : Spec.X86.Ctx) (rule : Rule) (opcode reg xb : BitVec 32) (m : Mem) (mo : MemOp) (pfx : List (BitVec 8))
     (mb : BitVec 32 → BitVec 32 → BitVec 8) (sib : BitVec 32 → BitVec 32 → Option (BitVec 8)) (ds : BitVec 32 → BitVec 32 → List (BitVec 8))
-    (AF : AddrForm c ctx m mo xb mb sib ds)
+    (AF : AddrForm c ctx m mo pfx xb mb sib ds)
     (k0 : RegKind) (f0 f2 : FormOp)
     (hvf : c.vexFlag = true)
     (hm64 : ctx.mode64 = true) (hmode : (rule.modes &&& 2 != 0) = true)
@@ -364,26 +385,26 @@ theorem vexM_rm_formOk_vex (c : Model.X86.Ctx) (ctx : Spec.X86.Ctx) (rule : Rule
   by_cases h3 : vexPrep (xR opcode 0#32 reg 0#32 xb 0#32) opcode 0#32 &&& 0x8000807E#32 ≠ 0#32
   · rw [if_pos h3]
     refine ⟨_, rfl, ?_⟩
-    obtain ⟨p, hp, P, h0, h1, F, hNp, hi⟩ := vex3G_parsed rule opcode reg 0#32 xb _ _ _ [] hr (by decide) hxb hxop hll R hs A s1 s2 s3 s4
+    obtain ⟨p, hp, P, h0, h1, F, hNp, hi⟩ := vex3G_parsed rule opcode reg 0#32 xb pfx _ _ _ [] AF.hpl hr (by decide) hxb hxop hll R hs A s1 s2 s3 s4
     have hc := AF.chk rule p _ _ ho7 (by decide) F (by rw [hNp]; rfl)
     simp only [emitImmediate] at *
-    exact vex_rm_mem_formOk ctx rule p _ _ k0 f0 f2 _ _ hm64 hmode hk0 R hf0 hf2 AF.hwa AF.hvsib AF.hseg AF.hbc hal hp P h0 h1 hc
+    exact vex_rm_mem_formOk ctx rule p _ _ pfx k0 f0 f2 _ _ hm64 hmode hk0 R hf0 hf2 AF.hpc AF.hvsib AF.hbc hal hp P h0 h1 hc
   · rw [if_neg h3]
     refine ⟨_, rfl, ?_⟩
     have h3' : vexPrep (xR opcode 0#32 reg 0#32 xb 0#32) opcode 0#32 &&& 0x8000807E#32 = 0#32 := by simpa using h3
     have hmm1 : opcode &&& 0x100#32 ≠ 0#32 := by
       simp only [vexPrep, xR, extractLLMMMMM, kLL_Mask, kMM_Mask, oEvex, oVex3] at h3'
       bv_decide
-    obtain ⟨p, hp, P, h0, h1, F, hNp, hi⟩ := vex2G_parsed rule opcode reg 0#32 xb _ _ _ [] hr (by decide) hxb hll hmm1 h3' R hs A s1 s2 s3 s4
+    obtain ⟨p, hp, P, h0, h1, F, hNp, hi⟩ := vex2G_parsed rule opcode reg 0#32 xb pfx _ _ _ [] AF.hpl hr (by decide) hxb hll hmm1 h3' R hs A s1 s2 s3 s4
     have hc := AF.chk rule p _ _ ho7 (by decide) F (by rw [hNp]; rfl)
     simp only [emitImmediate] at *
-    exact vex_rm_mem_formOk ctx rule p _ _ k0 f0 f2 _ _ hm64 hmode hk0 R hf0 hf2 AF.hwa AF.hvsib AF.hseg AF.hbc hal hp P h0 h1 hc
+    exact vex_rm_mem_formOk ctx rule p _ _ pfx k0 f0 f2 _ _ hm64 hmode hk0 R hf0 hf2 AF.hpc AF.hvsib AF.hbc hal hp P h0 h1 hc
 
 /-- shape [reg, vvvv, MEM, imm8], EVEX rule: the bytes of `EmitVexEvexM` when the EVEX branch is taken (the instruction has no
 VEX form, or a register / the opcode word needs EVEX) satisfy the monitor -/
-theorem vexM_rvmi_formOk_evex (c : Model.X86.Ctx) (ctx : Spec.X86.Ctx) (rule : Rule) (opcode reg vvvvv xb : BitVec 32) (m : Mem) (mo : MemOp)
+theorem vexM_rvmi_formOk_evex (c : Model.X86.Ctx) (ctx : Spec.X86.Ctx) (rule : Rule) (opcode reg vvvvv xb : BitVec 32) (m : Mem) (mo : MemOp) (pfx : List (BitVec 8))
     (mb : BitVec 32 → BitVec 32 → BitVec 8) (sib : BitVec 32 → BitVec 32 → Option (BitVec 8)) (ds : BitVec 32 → BitVec 32 → List (BitVec 8))
-    (AF : AddrForm c ctx m mo xb mb sib ds)
+    (AF : AddrForm c ctx m mo pfx xb mb sib ds)
     (k0 k1 : RegKind) (f0 f1 f2 : FormOp)
     (hm64 : ctx.mode64 = true) (hmode : (rule.modes &&& 2 != 0) = true)
     (hr : reg < 32#32) (hv : vvvvv < 32#32) (hxop : opcode &&& 0x800#32 = 0#32)
@@ -402,15 +423,15 @@ theorem vexM_rvmi_formOk_evex (c : Model.X86.Ctx) (ctx : Spec.X86.Ctx) (rule : R
   refine ⟨_, rfl, ?_⟩
   have ho7 : (reg + (vvvvv <<< 7)) &&& 7#32 < 8#32 := by bv_decide
   obtain ⟨s1, s2, s3, s4⟩ := AF.shape _ (cdShiftOf (evexCdOpcodeOf opcode)) ho7
-  obtain ⟨p, hp, P, h0, h1, F, hNp, hi⟩ := evexG_parsed rule opcode reg vvvvv xb _ _ _ [imm.truncate 8] hr hv AF.hxb hxop R hs A s1 s2 s3 s4
+  obtain ⟨p, hp, P, h0, h1, F, hNp, hi⟩ := evexG_parsed rule opcode reg vvvvv xb pfx _ _ _ [imm.truncate 8] AF.hpl hr hv AF.hxb hxop R hs A s1 s2 s3 s4
   have hc := AF.chk rule p _ _ ho7 hs6 F (by rw [hNp]; exact hN)
   simp only [emitImmediate] at *
-  exact vex_rvmi_mem_formOk ctx rule p _ _ k0 k1 f0 f1 f2 _ _ _ hm64 hmode hk0 hk1 R f3 imm hf3 hib (by simp [hi]) hf0 hf1 hf2 AF.hwa AF.hvsib AF.hseg AF.hbc hal hp P h0 h1 hc
+  exact vex_rvmi_mem_formOk ctx rule p _ _ pfx k0 k1 f0 f1 f2 _ _ _ hm64 hmode hk0 hk1 R f3 imm hf3 hib (by simp [hi]) hf0 hf1 hf2 AF.hpc AF.hvsib AF.hbc hal hp P h0 h1 hc
 
 /-- shape [reg, vvvv, MEM, imm8], VEX rule: the VEX3 or VEX2 bytes `EmitVexEvexM` emits when EVEX is not needed satisfy the monitor -/
-theorem vexM_rvmi_formOk_vex (c : Model.X86.Ctx) (ctx : Spec.X86.Ctx) (rule : Rule) (opcode reg vvvvv xb : BitVec 32) (m : Mem) (mo : MemOp)
+theorem vexM_rvmi_formOk_vex (c : Model.X86.Ctx) (ctx : Spec.X86.Ctx) (rule : Rule) (opcode reg vvvvv xb : BitVec 32) (m : Mem) (mo : MemOp) (pfx : List (BitVec 8))
     (mb : BitVec 32 → BitVec 32 → BitVec 8) (sib : BitVec 32 → BitVec 32 → Option (BitVec 8)) (ds : BitVec 32 → BitVec 32 → List (BitVec 8))
-    (AF : AddrForm c ctx m mo xb mb sib ds)
+    (AF : AddrForm c ctx m mo pfx xb mb sib ds)
     (k0 k1 : RegKind) (f0 f1 f2 : FormOp)
     (hvf : c.vexFlag = true)
     (hm64 : ctx.mode64 = true) (hmode : (rule.modes &&& 2 != 0) = true)
@@ -437,26 +458,26 @@ theorem vexM_rvmi_formOk_vex (c : Model.X86.Ctx) (ctx : Spec.X86.Ctx) (rule : Ru
   by_cases h3 : vexPrep (xR opcode 0#32 reg vvvvv xb 0#32) opcode 0#32 &&& 0x8000807E#32 ≠ 0#32
   · rw [if_pos h3]
     refine ⟨_, rfl, ?_⟩
-    obtain ⟨p, hp, P, h0, h1, F, hNp, hi⟩ := vex3G_parsed rule opcode reg vvvvv xb _ _ _ [imm.truncate 8] hr hv hxb hxop hll R hs A s1 s2 s3 s4
+    obtain ⟨p, hp, P, h0, h1, F, hNp, hi⟩ := vex3G_parsed rule opcode reg vvvvv xb pfx _ _ _ [imm.truncate 8] AF.hpl hr hv hxb hxop hll R hs A s1 s2 s3 s4
     have hc := AF.chk rule p _ _ ho7 (by decide) F (by rw [hNp]; rfl)
     simp only [emitImmediate] at *
-    exact vex_rvmi_mem_formOk ctx rule p _ _ k0 k1 f0 f1 f2 _ _ _ hm64 hmode hk0 hk1 R f3 imm hf3 hib (by simp [hi]) hf0 hf1 hf2 AF.hwa AF.hvsib AF.hseg AF.hbc hal hp P h0 h1 hc
+    exact vex_rvmi_mem_formOk ctx rule p _ _ pfx k0 k1 f0 f1 f2 _ _ _ hm64 hmode hk0 hk1 R f3 imm hf3 hib (by simp [hi]) hf0 hf1 hf2 AF.hpc AF.hvsib AF.hbc hal hp P h0 h1 hc
   · rw [if_neg h3]
     refine ⟨_, rfl, ?_⟩
     have h3' : vexPrep (xR opcode 0#32 reg vvvvv xb 0#32) opcode 0#32 &&& 0x8000807E#32 = 0#32 := by simpa using h3
     have hmm1 : opcode &&& 0x100#32 ≠ 0#32 := by
       simp only [vexPrep, xR, extractLLMMMMM, kLL_Mask, kMM_Mask, oEvex, oVex3] at h3'
       bv_decide
-    obtain ⟨p, hp, P, h0, h1, F, hNp, hi⟩ := vex2G_parsed rule opcode reg vvvvv xb _ _ _ [imm.truncate 8] hr hv hxb hll hmm1 h3' R hs A s1 s2 s3 s4
+    obtain ⟨p, hp, P, h0, h1, F, hNp, hi⟩ := vex2G_parsed rule opcode reg vvvvv xb pfx _ _ _ [imm.truncate 8] AF.hpl hr hv hxb hll hmm1 h3' R hs A s1 s2 s3 s4
     have hc := AF.chk rule p _ _ ho7 (by decide) F (by rw [hNp]; rfl)
     simp only [emitImmediate] at *
-    exact vex_rvmi_mem_formOk ctx rule p _ _ k0 k1 f0 f1 f2 _ _ _ hm64 hmode hk0 hk1 R f3 imm hf3 hib (by simp [hi]) hf0 hf1 hf2 AF.hwa AF.hvsib AF.hseg AF.hbc hal hp P h0 h1 hc
+    exact vex_rvmi_mem_formOk ctx rule p _ _ pfx k0 k1 f0 f1 f2 _ _ _ hm64 hmode hk0 hk1 R f3 imm hf3 hib (by simp [hi]) hf0 hf1 hf2 AF.hpc AF.hvsib AF.hbc hal hp P h0 h1 hc
 
 /-- shape [reg, MEM, imm8], EVEX rule: the bytes of `EmitVexEvexM` when the EVEX branch is taken (the instruction has no
 VEX form, or a register / the opcode word needs EVEX) satisfy the monitor -/
-theorem vexM_rmi_formOk_evex (c : Model.X86.Ctx) (ctx : Spec.X86.Ctx) (rule : Rule) (opcode reg xb : BitVec 32) (m : Mem) (mo : MemOp)
+theorem vexM_rmi_formOk_evex (c : Model.X86.Ctx) (ctx : Spec.X86.Ctx) (rule : Rule) (opcode reg xb : BitVec 32) (m : Mem) (mo : MemOp) (pfx : List (BitVec 8))
     (mb : BitVec 32 → BitVec 32 → BitVec 8) (sib : BitVec 32 → BitVec 32 → Option (BitVec 8)) (ds : BitVec 32 → BitVec 32 → List (BitVec 8))
-    (AF : AddrForm c ctx m mo xb mb sib ds)
+    (AF : AddrForm c ctx m mo pfx xb mb sib ds)
     (k0 : RegKind) (f0 f2 : FormOp)
     (hm64 : ctx.mode64 = true) (hmode : (rule.modes &&& 2 != 0) = true)
     (hr : reg < 32#32) (hxop : opcode &&& 0x800#32 = 0#32)
@@ -475,15 +496,15 @@ theorem vexM_rmi_formOk_evex (c : Model.X86.Ctx) (ctx : Spec.X86.Ctx) (rule : Ru
   refine ⟨_, rfl, ?_⟩
   have ho7 : (reg + (0#32 <<< 7)) &&& 7#32 < 8#32 := by bv_decide
   obtain ⟨s1, s2, s3, s4⟩ := AF.shape _ (cdShiftOf (evexCdOpcodeOf opcode)) ho7
-  obtain ⟨p, hp, P, h0, h1, F, hNp, hi⟩ := evexG_parsed rule opcode reg 0#32 xb _ _ _ [imm.truncate 8] hr (by decide) AF.hxb hxop R hs A s1 s2 s3 s4
+  obtain ⟨p, hp, P, h0, h1, F, hNp, hi⟩ := evexG_parsed rule opcode reg 0#32 xb pfx _ _ _ [imm.truncate 8] AF.hpl hr (by decide) AF.hxb hxop R hs A s1 s2 s3 s4
   have hc := AF.chk rule p _ _ ho7 hs6 F (by rw [hNp]; exact hN)
   simp only [emitImmediate] at *
-  exact vex_rmi_mem_formOk ctx rule p _ _ k0 f0 f2 _ _ hm64 hmode hk0 R f3 imm hf3 hib (by simp [hi]) hf0 hf2 AF.hwa AF.hvsib AF.hseg AF.hbc hal hp P h0 h1 hc
+  exact vex_rmi_mem_formOk ctx rule p _ _ pfx k0 f0 f2 _ _ hm64 hmode hk0 R f3 imm hf3 hib (by simp [hi]) hf0 hf2 AF.hpc AF.hvsib AF.hbc hal hp P h0 h1 hc
 
 /-- shape [reg, MEM, imm8], VEX rule: the VEX3 or VEX2 bytes `EmitVexEvexM` emits when EVEX is not needed satisfy the monitor -/
-theorem vexM_rmi_formOk_vex (c : Model.X86.Ctx) (ctx : Spec.X86.Ctx) (rule : Rule) (opcode reg xb : BitVec 32) (m : Mem) (mo : MemOp)
+theorem vexM_rmi_formOk_vex (c : Model.X86.Ctx) (ctx : Spec.X86.Ctx) (rule : Rule) (opcode reg xb : BitVec 32) (m : Mem) (mo : MemOp) (pfx : List (BitVec 8))
     (mb : BitVec 32 → BitVec 32 → BitVec 8) (sib : BitVec 32 → BitVec 32 → Option (BitVec 8)) (ds : BitVec 32 → BitVec 32 → List (BitVec 8))
-    (AF : AddrForm c ctx m mo xb mb sib ds)
+    (AF : AddrForm c ctx m mo pfx xb mb sib ds)
     (k0 : RegKind) (f0 f2 : FormOp)
     (hvf : c.vexFlag = true)
     (hm64 : ctx.mode64 = true) (hmode : (rule.modes &&& 2 != 0) = true)
@@ -510,19 +531,19 @@ theorem vexM_rmi_formOk_vex (c : Model.X86.Ctx) (ctx : Spec.X86.Ctx) (rule : Rul
   by_cases h3 : vexPrep (xR opcode 0#32 reg 0#32 xb 0#32) opcode 0#32 &&& 0x8000807E#32 ≠ 0#32
   · rw [if_pos h3]
     refine ⟨_, rfl, ?_⟩
-    obtain ⟨p, hp, P, h0, h1, F, hNp, hi⟩ := vex3G_parsed rule opcode reg 0#32 xb _ _ _ [imm.truncate 8] hr (by decide) hxb hxop hll R hs A s1 s2 s3 s4
+    obtain ⟨p, hp, P, h0, h1, F, hNp, hi⟩ := vex3G_parsed rule opcode reg 0#32 xb pfx _ _ _ [imm.truncate 8] AF.hpl hr (by decide) hxb hxop hll R hs A s1 s2 s3 s4
     have hc := AF.chk rule p _ _ ho7 (by decide) F (by rw [hNp]; rfl)
     simp only [emitImmediate] at *
-    exact vex_rmi_mem_formOk ctx rule p _ _ k0 f0 f2 _ _ hm64 hmode hk0 R f3 imm hf3 hib (by simp [hi]) hf0 hf2 AF.hwa AF.hvsib AF.hseg AF.hbc hal hp P h0 h1 hc
+    exact vex_rmi_mem_formOk ctx rule p _ _ pfx k0 f0 f2 _ _ hm64 hmode hk0 R f3 imm hf3 hib (by simp [hi]) hf0 hf2 AF.hpc AF.hvsib AF.hbc hal hp P h0 h1 hc
   · rw [if_neg h3]
     refine ⟨_, rfl, ?_⟩
     have h3' : vexPrep (xR opcode 0#32 reg 0#32 xb 0#32) opcode 0#32 &&& 0x8000807E#32 = 0#32 := by simpa using h3
     have hmm1 : opcode &&& 0x100#32 ≠ 0#32 := by
       simp only [vexPrep, xR, extractLLMMMMM, kLL_Mask, kMM_Mask, oEvex, oVex3] at h3'
       bv_decide
-    obtain ⟨p, hp, P, h0, h1, F, hNp, hi⟩ := vex2G_parsed rule opcode reg 0#32 xb _ _ _ [imm.truncate 8] hr (by decide) hxb hll hmm1 h3' R hs A s1 s2 s3 s4
+    obtain ⟨p, hp, P, h0, h1, F, hNp, hi⟩ := vex2G_parsed rule opcode reg 0#32 xb pfx _ _ _ [imm.truncate 8] AF.hpl hr (by decide) hxb hll hmm1 h3' R hs A s1 s2 s3 s4
     have hc := AF.chk rule p _ _ ho7 (by decide) F (by rw [hNp]; rfl)
     simp only [emitImmediate] at *
-    exact vex_rmi_mem_formOk ctx rule p _ _ k0 f0 f2 _ _ hm64 hmode hk0 R f3 imm hf3 hib (by simp [hi]) hf0 hf2 AF.hwa AF.hvsib AF.hseg AF.hbc hal hp P h0 h1 hc
+    exact vex_rmi_mem_formOk ctx rule p _ _ pfx k0 f0 f2 _ _ hm64 hmode hk0 R f3 imm hf3 hib (by simp [hi]) hf0 hf2 AF.hpc AF.hvsib AF.hbc hal hp P h0 h1 hc
 
 end AsmjitVerif.Props.C01
